@@ -100,6 +100,10 @@ NOTES.update({
  "w11-C11-m3": "missed at first: the text of a result was read once; the last result of every Decoder / AztecReader instance is held with a private copy of its text and compared after the next decode on that instance (same for the long-lived decoders of C05)",
  "w11-C18-m1": "missed at first: every task built its multi-format reader from no hints; half of them now build it from the application-wide hints map, whose format list starts with other families' formats and ends with a duplicate",
 })
+NOTES.update({
+ "w12-C11-m2": "missed at first: the longest binary run was 1100 bytes; the two largest sizes now get a short prefix and one binary-shift run of 1890..2078 bytes (the long form's limit)",
+ "w12-C17-m2": "missed at first: rows were fetched into one re-used array; a row obtained with a nil array is now kept with a private copy and compared after later row fetches (`row-changes-later`). The first version of this bookkeeping forgot that the harness itself hands the kept array back in on the next call (the library may then overwrite it): it alarmed on the unchanged tree in the first trial run and was corrected before it was committed",
+})
 rows=[]
 for d in sorted(glob.glob('/verif/seeded/*/')):
     name=os.path.basename(d.rstrip('/'))
